@@ -1,4 +1,5 @@
 import SqlgrepModel.Lemmas.AggFollowJoin
+import SqlgrepModel.Lemmas.AggFollowExec
 /-
 C11 — incremental (tail -f) results equal a batch run over the same prefix.
 
@@ -9,6 +10,9 @@ emitted for the k-th line are exactly the rows by which the batch output over k 
 output over k−1 lines. Part 2 (aggregates, end of this file): the table shown after the k-th update+result equals
 the batch result over the first k lines — from the aggregation refinement (Lemmas/Agg*.lean): `execute_result` keeps
 the coupling between state and per-group rows (`result_repeatable`), and the table is a function of those rows alone.
+The aggregate half is stated twice: at engine level over `followRun` (`follow_eq_batch_prefix`, with the k-th row that
+WHERE rejects in `follow_rejected_row_changes_nothing`), and over the EXECUTED loops `runFollowAll` / `runBatch`
+(`follow_kth_line_eq_batch_prefix`, `follow_last_shown_is_batch_table`), linked by `follow_run_is_engine_steps`.
 -/
 namespace Sqlgrep.Props.C11
 open Sqlgrep
@@ -112,7 +116,10 @@ time (update + result each), then a k-th row `env` that WHERE admits — the tab
 batch run (update only per row, one result at the end) over `pre ++ [env]`. Proved by direct simulation of the two
 states (no reference to the specification, so it also covers the finding classes D10/D15). Hypotheses: both runs got
 that far without an evaluation error, and the GROUP BY keys seen are exact (equal in the value order ⇒ identical; with
-`0.0` and `-0.0` as keys the two modes may show different representatives of the group). -/
+`0.0` and `-0.0` as keys the two modes may show different representatives of the group: D60 below).
+This is the case "the k-th row is shown" (`hupd : … = .ok (sf1, true)`); the other case is
+`follow_rejected_row_changes_nothing`, and both cases over the executed loops (with lines that are not admitted) are
+`follow_kth_line_eq_batch_prefix`. Statements WITH a LIMIT are outside this theorem. -/
 theorem follow_eq_batch_prefix {O : Oracles} {q : AggStmt} (hlim : q.limit = none) (pre : List Env) (env : Env)
     {sf sf1 sf2 sb : AggState} {out : RowOut}
     (hfollow : followRun O q pre {} = .ok sf) (hupd : aggUpdateRow O q sf env = .ok (sf1, true))
@@ -157,6 +164,69 @@ theorem follow_eq_batch_prefix_via_spec {O : Oracles} {q : AggStmt} (hwf : StmtW
     ∃ sb, aggRun O q (pre ++ [env]) {} = .ok sb)
   rw [hsb]
   exact follow_table_eq_batch hwf hlim pre env hfollow hupd hres hsb hspec hclass
+
+/-! ### the k-th line that shows nothing, and the executed loops -/
+
+/-- the k-th row is rejected by WHERE: follow mode shows nothing for it and keeps its state (so the last table shown
+stays the last table shown), and the batch run over the first k rows IS the batch run over the first k−1 rows — the
+batch table is unchanged -/
+theorem follow_rejected_row_changes_nothing {O : Oracles} {q : AggStmt} (pre : List Env) (env : Env) (sf : AggState)
+    (h : passes O q env = some false) :
+    followStep O q sf env = .ok (sf, none) ∧ aggRun O q (pre ++ [env]) {} = aggRun O q pre {} :=
+  rejected_row_changes_nothing pre env sf h
+
+/-- **`followRun` is the executed follow loop.** `runFollowAll` is the function the compiled driver runs for a `followi`
+case (`FollowFileExecutor::execute`: per delivered line the flag, the line count, `executeLine` with update + result, the
+printer). For an aggregate statement without join and LIMIT it feeds exactly the rows of the admitted lines
+(`followEnvs`), in order, through `followStep`; prints the tables `followStep` returned (`followTables` = `followRun`
+plus those tables: `followTables_state`), and counts every line. -/
+theorem follow_run_is_engine_steps (O : Oracles) (qy : Query) (q : AggStmt) (hq : qy.stmt = .aggregate q)
+    (hj : qy.join = none) (hlim : q.limit = none) (lines : List Line) {st : AggState} {ts : List RowOut}
+    (h : followTables O q (followEnvs qy.table lines) {} = .ok (st, ts)) :
+    runFollowAll O qy none lines = { printed := ts.flatMap (fun r => printResult r true), totalLines := lines.length } ∧
+    followRun O q (followEnvs qy.table lines) {} = .ok st :=
+  ⟨runFollowAll_agg O qy q hq hj hlim lines h, followRun_of_tables h⟩
+
+/-- and conversely: an executed follow run that reports no failure went through every engine step -/
+theorem follow_run_without_failure_ran_every_step (O : Oracles) (qy : Query) (q : AggStmt) (hq : qy.stmt = .aggregate q)
+    (hj : qy.join = none) (hlim : q.limit = none) (lines : List Line)
+    (h : hasFailed (runFollowAll O qy none lines) = false) :
+    ∃ st ts, followTables O q (followEnvs qy.table lines) {} = .ok (st, ts) :=
+  runFollowAll_agg_ok O qy q hq hj hlim lines h
+
+/-- **C11, aggregate half, over the executed loops; every k-th line.** `runFollowAll` over the first k delivered lines and
+`runBatch` over the same lines as one file; neither reports a failure; the GROUP BY keys seen are exact; no LIMIT, no JOIN.
+* The k-th line is SHOWN (`lineShown`: it is admitted and WHERE admits its row): what follow mode prints for it — after
+  everything it printed for the first k−1 lines — is exactly what the batch run over the first k lines prints.
+* The k-th line is NOT shown (not admitted, or rejected by WHERE): follow mode prints nothing for it, and the batch run
+  over the first k lines prints what the batch run over the first k−1 lines prints — the table is unchanged.
+In both cases the follow run over the first k−1 lines reports no failure either, so the statement applies to every
+earlier line as well. -/
+theorem follow_kth_line_eq_batch_prefix (O : Oracles) (qy : Query) (q : AggStmt) (hq : qy.stmt = .aggregate q)
+    (hj : qy.join = none) (hlim : q.limit = none) (joined : List FileLine) (pre : List Line) (l : Line)
+    (hf : hasFailed (runFollowAll O qy none (pre ++ [l])) = false)
+    (hb : hasFailed (runBatch O qy joined [asFile (pre ++ [l])] none) = false)
+    (hex : KeysExact (groupKeysOf O q (followEnvs qy.table (pre ++ [l])))) :
+    hasFailed (runFollowAll O qy none pre) = false ∧
+    (lineShown O qy q l →
+      (runFollowAll O qy none (pre ++ [l])).printed =
+        (runFollowAll O qy none pre).printed ++ (runBatch O qy joined [asFile (pre ++ [l])] none).printed) ∧
+    (¬ lineShown O qy q l →
+      (runFollowAll O qy none (pre ++ [l])).printed = (runFollowAll O qy none pre).printed ∧
+      (runBatch O qy joined [asFile (pre ++ [l])] none).printed = (runBatch O qy joined [asFile pre] none).printed ∧
+      hasFailed (runBatch O qy joined [asFile pre] none) = false) :=
+  follow_exec_step O qy q hq hj hlim joined pre l hf hb hex
+
+/-- **the last table shown** after any number of lines is the batch table over those lines: the follow output ends with
+exactly the batch run's output — or follow mode has printed nothing at all, because no line so far was shown -/
+theorem follow_last_shown_is_batch_table (O : Oracles) (qy : Query) (q : AggStmt) (hq : qy.stmt = .aggregate q)
+    (hj : qy.join = none) (hlim : q.limit = none) (joined : List FileLine) (lines : List Line)
+    (hf : hasFailed (runFollowAll O qy none lines) = false)
+    (hb : hasFailed (runBatch O qy joined [asFile lines] none) = false)
+    (hex : KeysExact (groupKeysOf O q (followEnvs qy.table lines))) :
+    (∃ earlier, (runFollowAll O qy none lines).printed = earlier ++ (runBatch O qy joined [asFile lines] none).printed) ∨
+    ((runFollowAll O qy none lines).printed = [] ∧ ∀ l ∈ lines, ¬ lineShown O qy q l) :=
+  follow_exec_last O qy q hq hj hlim joined lines hf hb hex
 
 /-! ### follow mode over a JOIN -/
 
@@ -240,5 +310,32 @@ example : KeysExact (groupKeysOf {} exCount ([({} : Env)] ++ [({} : Env)])) := b
   simp [groupKeysOf, keyOf, exCount] at ha hb
   rw [ha, hb]
 example : finalResult {} exCount { agg := (publishPercentiles (publishPercentiles {})) } = finalResult {} exCount {} := rfl
+
+/-- non-vacuity over the executed loops: `SELECT COUNT(*) FROM a WHERE k = 1` on a shown line, a line WHERE rejects and a
+line that is not admitted. Follow mode prints one table (`1`) for the first line and nothing for the other two; the batch
+runs over 1, 2 and 3 lines all print `1`. -/
+example :
+    runFollowAll {} exWhereQuery none [exLineShown] = { printed := ["count0: 1"], totalLines := 1 } ∧
+    runFollowAll {} exWhereQuery none [exLineShown, exLineRejected] = { printed := ["count0: 1"], totalLines := 2 } ∧
+    runFollowAll {} exWhereQuery none [exLineShown, exLineRejected, exLineNotAdmitted] =
+      { printed := ["count0: 1"], totalLines := 3 } ∧
+    runBatch {} exWhereQuery [] [asFile [exLineShown, exLineRejected, exLineNotAdmitted]] none =
+      { printed := ["count0: 1"], totalLines := 3 } ∧
+    runFollowAll {} exWhereQuery none [exLineShown, exLineShown] = { printed := ["count0: 1", "count0: 2"], totalLines := 2 } ∧
+    runBatch {} exWhereQuery [] [asFile [exLineShown, exLineShown]] none = { printed := ["count0: 2"], totalLines := 2 } := by
+  refine ⟨?_, ?_, ?_, ?_, ?_, ?_⟩ <;> rfl
+example : lineShown {} exWhereQuery exWhereStmt exLineShown ∧ ¬ lineShown {} exWhereQuery exWhereStmt exLineRejected ∧
+    ¬ lineShown {} exWhereQuery exWhereStmt exLineNotAdmitted := by
+  refine ⟨⟨rfl, rfl⟩, fun h => ?_, fun h => ?_⟩
+  · exact absurd h.2 (by decide)
+  · exact absurd h.1 (by decide)
+/-- the hypotheses of `follow_kth_line_eq_batch_prefix` hold on that input (k = 2: the rejected line) -/
+example : hasFailed (runFollowAll {} exWhereQuery none ([exLineShown] ++ [exLineRejected])) = false ∧
+    hasFailed (runBatch {} exWhereQuery [] [asFile ([exLineShown] ++ [exLineRejected])] none) = false ∧
+    KeysExact (groupKeysOf {} exWhereStmt (followEnvs exWhereQuery.table ([exLineShown] ++ [exLineRejected]))) := by
+  refine ⟨by decide, by decide, ?_⟩
+  intro a ha b hb _
+  simp [groupKeysOf, keyOf, exWhereStmt, followEnvs, asFile, envsOf] at ha hb
+  rw [← ha.2, ← hb.2]
 
 end Sqlgrep.Props.C11
